@@ -14,9 +14,11 @@ import (
 	"time"
 
 	conf_v1 "github.com/nginx/kubernetes-ingress/pkg/apis/configuration/v1"
+	"github.com/nginx/kubernetes-ingress/internal/configs"
 	"github.com/nginx/kubernetes-ingress/pkg/apis/configuration/validation"
 	networking "k8s.io/api/networking/v1"
 	metav1 "k8s.io/apimachinery/pkg/apis/meta/v1"
+	"k8s.io/apimachinery/pkg/runtime"
 	"k8s.io/apimachinery/pkg/types"
 )
 
@@ -324,6 +326,79 @@ func verifObs(c *Configuration, changes []ResourceChange, problems []Configurati
 	return fmt.Sprintf("C=%s#P=%s#R=%s", strings.Join(cs, ","), strings.Join(ps, ","), strings.Join(rs, ","))
 }
 
+// verifRecorder records the events the controller would send (record.EventRecorder).
+type verifRecorder struct{ events []string }
+
+var verifWarnRe = regexp.MustCompile(`with warning\(s\): (.*)$`)
+
+func (r *verifRecorder) add(obj runtime.Object, eventtype, reason, msg string) {
+	key := "?"
+	switch o := obj.(type) {
+	case *networking.Ingress:
+		key = "Ingress/" + verifMetaStr(&o.ObjectMeta)
+	case *conf_v1.VirtualServer:
+		key = "VirtualServer/" + verifMetaStr(&o.ObjectMeta)
+	case *conf_v1.VirtualServerRoute:
+		key = "VirtualServerRoute/" + verifMetaStr(&o.ObjectMeta)
+	case *conf_v1.TransportServer:
+		key = "TransportServer/" + verifMetaStr(&o.ObjectMeta)
+	}
+	codes := ""
+	switch {
+	case strings.Contains(msg, "with error: "):
+		codes = "validation-error"
+	case verifWarnRe.MatchString(msg):
+		codes = verifCodes(strings.Split(verifWarnRe.FindStringSubmatch(msg)[1], "; "))
+	case strings.HasPrefix(msg, "Configuration for "):
+		codes = ""
+	default:
+		codes = verifCode(msg)
+		if strings.HasPrefix(codes, "other:") {
+			codes = "validation-error"
+		}
+	}
+	r.events = append(r.events, fmt.Sprintf("%s~%s~%s~%s", key, eventtype, reason, codes))
+}
+
+func (r *verifRecorder) Event(object runtime.Object, eventtype, reason, message string) {
+	r.add(object, eventtype, reason, message)
+}
+
+func (r *verifRecorder) Eventf(object runtime.Object, eventtype, reason, messageFmt string, args ...interface{}) {
+	r.add(object, eventtype, reason, fmt.Sprintf(messageFmt, args...))
+}
+
+func (r *verifRecorder) AnnotatedEventf(object runtime.Object, _ map[string]string, eventtype, reason, messageFmt string, args ...interface{}) {
+	r.add(object, eventtype, reason, fmt.Sprintf(messageFmt, args...))
+}
+
+// verifEvents drives the controller's real reporting functions the way processChanges / processProblems do
+// (the configurator calls in between are left out: no NGINX is involved, every apply "succeeds").
+// gone is the key-with-kind of an object deleted from the cluster by this very event (no report is sent for it).
+func verifEvents(changes []ResourceChange, problems []ConfigurationProblem, gone string) []string {
+	rec := &verifRecorder{}
+	lbc := &LoadBalancerController{recorder: rec, Logger: verifLogger, isLeaderElectionEnabled: true}
+	for _, c := range changes {
+		if c.Op == AddOrUpdate {
+			lbc.updateResourcesStatusAndEvents([]Resource{c.Resource}, configs.Warnings{}, nil)
+			continue
+		}
+		if c.Resource.GetKeyWithKind() == gone {
+			continue
+		}
+		switch impl := c.Resource.(type) {
+		case *VirtualServerConfiguration:
+			lbc.UpdateVirtualServerStatusAndEventsOnDelete(impl, c.Error, nil)
+		case *IngressConfiguration:
+			lbc.UpdateIngressStatusAndEventsOnDelete(impl, c.Error, nil)
+		case *TransportServerConfiguration:
+			lbc.updateTransportServerStatusAndEventsOnDelete(impl, c.Error, nil)
+		}
+	}
+	lbc.processProblems(problems)
+	return rec.events
+}
+
 // VerifNewConfiguration builds a real Configuration with the real validators and class predicate.
 func VerifNewConfiguration(passthrough, certManager bool, forbidden map[int]bool) *Configuration {
 	lbc := &LoadBalancerController{ingressClass: "nginx", Logger: verifLogger}
@@ -389,7 +464,13 @@ func VerifApplyOp(c *Configuration, op string) string {
 	default:
 		return "bad-op"
 	}
-	return verifObs(c, changes, problems) + extra
+	gone := ""
+	if f[0] == "del" {
+		kind := map[string]string{"ing": "Ingress", "vs": "VirtualServer", "vsr": "VirtualServerRoute", "ts": "TransportServer"}[f[1]]
+		gone = kind + "/" + f[2]
+	}
+	ev := strings.Join(verifEvents(changes, problems, gone), ",")
+	return verifObs(c, changes, problems) + "#EV=" + ev + extra
 }
 
 func verifForbidden(s string) map[int]bool {
